@@ -373,7 +373,7 @@ func checkC13(c *Ctx, r *Report) {
 	c13FreshGeneration(c, r, "C13.R4.fresh-generation")
 	r.rule("C13.R5.accepted-conn", 1, "a connection serveTCP accepted is handed to a connection goroutine or closed on every path")
 	acceptedConnNotDropped(c, r, "C13.R5.accepted-conn")
-	r.rule("C13.R4.listener-not-leaked", 3, "a socket ListenAndServe opened is installed in the server or closed before any return")
+	r.rule("C13.R4.listener-not-leaked", 2, "a socket ListenAndServe opened is installed in the server or closed before any return")
 	listenerNotLeaked(c, r, "C13.R4.listener-not-leaked")
 	shutdownReleased(c, r, "C13.R2.shutdown-released")
 	shutdownUnbounded(c, r, "C13.R4.shutdown-unbounded")
